@@ -121,7 +121,7 @@ func runCheck(prop, tier string, seed int, t0 time.Time) int {
 	loadS := time.Since(t0).Seconds()
 	scratch, _ := os.MkdirTemp("", "govc-"+prop+"-")
 	defer os.RemoveAll(scratch)
-	timeout := 20
+	timeout := 40 // per query; discharged obligations need well under 5 s, the margin is for a loaded machine
 	two := false
 	if tier == "thorough" {
 		timeout = 60
